@@ -142,7 +142,9 @@ def run_shard(spec, rec):
                 doc = D.doc_for(R, q, maxdepth=R.choice([2, 3, 4]), maxwidth=R.choice([3, 4, 5]))
                 rec.feat("case:random")
             text = G.render(q, R, feat=rec.features)
-            via = R.choice(["find", "finditer"])
+            via = R.choice(["find", "finditer", "finditer"])
+            if R.random() < 0.2:
+                via = ("reuse", D.doc_for(R, q, maxdepth=3, maxwidth=3))
             model.both = False
             try:
                 with guard(20):
